@@ -30,10 +30,12 @@ FontKeys(resv) == LET f == Deref(Get(Deref(resv), K_Font)) IN IF f.t = "dict" TH
 
 Well == C.variant = "plain" /\ C.countOff = 0
 Exp == Expected(C.tree)
+\* object number of a node: document order, or (reverse) the nodes below the root numbered against it
+NumOf(node) == IF "reverse" \in DOMAIN C /\ C.reverse /\ node > 1 THEN 10 + (C.tree.n + 2 - node) ELSE 10 + node
 \* the reference reader's page x against the expectation
 RefPageOK(x) ==
   LET p == PageList[x] e == Exp[x] IN
-  /\ p.n = 10 + e.node
+  /\ p.n = NumOf(e.node)
   /\ BoxMicro(Deref(p.inh[K_MediaBox])) = MediaBoxOf(e.mb)
   /\ (IF e.crop = 0 THEN p.inh[K_CropBox].t = "none" ELSE BoxMicro(Deref(p.inh[K_CropBox])) = CropBoxOf(e.crop))
   /\ (IF e.rot = 0 THEN p.inh[K_Rotate].t = "none" ELSE IntMicro(Deref(p.inh[K_Rotate])) = RotateOf(e.rot) * 1000000)
@@ -47,7 +49,7 @@ TChkRef == /\ IsEvent("chk_ref") /\ phase = "done"
 
 \* the library's page record against an expected entry
 LibPageIs(p, e) ==
-  /\ p.ok /\ p.obj = 10 + e.node
+  /\ p.ok /\ p.obj = NumOf(e.node)
   /\ p.mediaBox = MediaBoxOf(e.mb)
   /\ p.cropBox = (IF e.crop = 0 THEN <<>> ELSE CropBoxOf(e.crop))
   /\ p.rotate % 360 = (IF e.rot = 0 THEN 0 ELSE RotateOf(e.rot))
